@@ -332,11 +332,11 @@ func checkDecode(c tritsCase) (h.Info, error) {
 				return info, fmt.Errorf("b1t6: accepted %q re-encodes to %q", trytes, re)
 			}
 		case werr == ref.ErrTrits:
-			if !errors.Is(err, b1t6.ErrInvalidTrits) || got != nil {
+			if !errors.Is(err, b1t6.ErrInvalidTrits) { // (what accompanies the error is not prescribed for the tryte form)
 				return info, fmt.Errorf("b1t6.DecodeTrytes(%q) = %x, %v; want the invalid-trits error", trytes, got, err)
 			}
 		default:
-			if !errors.Is(err, b1t6.ErrInvalidLength) || got != nil {
+			if !errors.Is(err, b1t6.ErrInvalidLength) {
 				return info, fmt.Errorf("b1t6.DecodeTrytes(%q) = %x, %v; want the invalid-length error", trytes, got, err)
 			}
 		}
